@@ -274,6 +274,89 @@ def run_case(R, r):
             except Exception as ex:
                 R.fail("C09:write-after-copy-raises", f"{sx[:200]}: {type(ex).__name__} {str(ex)[:100]}", c2)
         objs[name] = (c, se)
+    # ------------------------------------------------------------------ assignment of an existing object to a nested slot
+    obj, e0 = objs["h0"]
+    cslots = [(p, st, sub) for p, st, sub in L.value_paths(t, e0) if p and st[0] in ("struct", "array") and not crosses_ref(t, p)]
+    if cslots:
+        path, st, sub = r.choice(cslots)
+        how = r.choice(["same-sizes", "same-sizes", "other-sizes", "smaller", "larger"])
+        if how == "same-sizes":
+            dd = perturb(st, sub, r)
+        elif how in ("smaller", "larger"):
+            dd = resize(st, perturb(st, sub, r), r, how == "smaller")
+            if dd is None:
+                how, dd = "other-sizes", T.val(st, r)[0]
+        else:
+            dd = T.val(st, r)[0]
+        ee = dd
+        if not T.has_zero_nd(st, dd):
+            scls = T.build(st, cache)
+            svs, sarg = L.vsexp(st, to_data(st, dd), cache, "py")
+            bi = r.choice([0, 0, 1, 2])
+            c2 = dict(ctx, assign_instance=how, path=L.pstr(path), from_buffer=bi)
+            try:
+                inst = scls(sarg, _buffer=hc.bufs[bi])
+            except Exception:
+                inst = None
+            if inst is not None:
+                hc.note_allocs()
+                hc.ops += [f"type TI {T.sexp(st)}", f"new TI inst {bi} {svs}"]
+                hc.exp += ["ok", f"off {inst._offset} mems {mems(hc.bufs)}"]
+                before = [L.image(b) for b in hc.bufs]
+                try:
+                    old = L.deep_str(t, obj, cache)
+                except Exception:
+                    old = None
+                try:
+                    slot_obj = L.nav(obj, path)
+                    lo, hi = int(slot_obj._offset), int(slot_obj._offset) + int(slot_obj._get_size())
+                except Exception:
+                    lo = hi = None
+                try:
+                    L.nav_set(obj, path, inst)
+                    res = "ok"
+                except Exception as ex:
+                    res = "err " + L.exc_name(ex)
+                after = [L.image(b) for b in hc.bufs]
+                hc.ops.append(f"upd h0 {L.pstr(path)} (obj inst)")
+                hc.exp.append(f"{res} mems {mems(hc.bufs)}")
+                R.tags[f"assign-instance.{how}.{st[0]}.{res.split()[0]}"] += 1
+                try:
+                    now = L.deep_str(t, obj, cache)
+                except Exception as ex:
+                    now = None
+                    R.fail("C10:read-after-set-raises", f"{sx[:200]}: after assigning an instance to {L.pstr(path)}: {type(ex).__name__} {str(ex)[:100]}", c2)
+                if res == "ok":
+                    new_e0 = L.replace_at(t, e0, path, expected_of(st, ee))
+                    w = L.expect_str(t, new_e0, cache)
+                    if now is not None and now != w:
+                        R.fail("C10:set-wrong", f"{sx[:200]}: after assigning an existing {T.type_name(st)} ({how}) to {L.pstr(path)} the object reads {now[:140]}, expected {w[:140]}", c2)
+                    elif now is not None:
+                        objs["h0"] = (obj, new_e0)
+                        e0 = new_e0
+                    if lo is not None and not has_refs:
+                        ch = [i for i in range(min(len(before[0]), len(after[0]))) if before[0][i] != after[0][i] and not lo <= i < hi]
+                        if ch:
+                            R.fail("C03:set-writes-outside", f"{sx[:200]}: assigning an existing {T.type_name(st)} to {L.pstr(path)} (slot [{lo},{hi})) changed bytes {ch[:8]} outside the slot", c2)
+                    try:
+                        if lo is not None and int(L.nav(obj, path)._get_size()) != hi - lo:
+                            R.fail("C11:size-changed", f"{sx[:200]}: the size of the object at {L.pstr(path)} changed from {hi - lo} to {int(L.nav(obj, path)._get_size())} by an assignment", c2)
+                    except Exception:
+                        pass
+                else:
+                    if after != before:
+                        R.fail("C11:error-with-side-effect:" + ("struct-update" if st[0] == "struct" else "array-value"),
+                               f"{sx[:200]}: assigning an existing {T.type_name(st)} ({how}) to {L.pstr(path)} raised {res} but changed the buffer", c2)
+                    elif old is not None and now != old:
+                        R.fail("C11:error-with-side-effect:value", f"{sx[:200]}: refused assignment changed the value", c2)
+                hc.ops.append("deep h0")
+                hc.exp.append("val " + now if now is not None else None)
+                if res != "ok" and after != before:
+                    # the intended value is unknown after a partially applied update: end this case here
+                    R.lines += hc.ops
+                    R.expect += hc.exp
+                    R.ctxs += [ctx] * len(hc.ops)
+                    return
     # ------------------------------------------------------------------ reference binding (C08)
     obj, e0 = objs["h0"]
     slots = list(ref_slots(t, e0))
@@ -387,6 +470,91 @@ def run_case(R, r):
     R.ctxs += [ctx] * len(hc.ops)
 
 
+def perturb(t, e, r):
+    """a value with exactly the sizes of `e` (same shapes, same strings, same reference pattern) and fresh scalars; in `val` data form"""
+    k = t[0]
+    if k == "scalar":
+        return T.val(t, r)[1]
+    if k == "string":
+        return e
+    if k == "struct":
+        return {n: perturb(ft, e[n], r) for n, ft in t[2]}
+    if k == "array":
+        _, shape, data = e
+
+        def walk(x, dims):
+            if not dims:
+                return perturb(t[1], x, r)
+            return [walk(y, dims[1:]) for y in x]
+
+        return ("ARR", shape, walk(data, shape))
+    if k == "ref":
+        return None if e is None else perturb(t[1], e, r)
+    if k == "uref":
+        return None if e is None else ("U", e[1], perturb(t[2][e[1]], e[2], r))
+
+
+def to_data(t, e):
+    return e
+
+
+def resize(t, d, r, smaller):
+    """`d` with its first dynamically sized part (dynamic array dimension or string) made smaller / larger; None if it has none"""
+    k = t[0]
+    if k == "string":
+        if isinstance(d, tuple):
+            return None
+        return d[: max(0, len(d) - 9)] if smaller and len(d) >= 9 else (None if smaller else d + "x" * 9)
+    if k == "struct":
+        for n, ft in t[2]:
+            nd = resize(ft, d[n], r, smaller)
+            if nd is not None:
+                out = dict(d)
+                out[n] = nd
+                return out
+        return None
+    if k == "array":
+        _, shape, data = d
+        dyn = [i for i, x in enumerate(t[2]) if x is None]
+        if dyn and (not smaller or shape[dyn[0]] > 0) and len(shape) == 1:
+            if smaller:
+                return ("ARR", [shape[0] - 1], data[:-1])
+            if data:
+                return ("ARR", [shape[0] + 1], data + [data[-1]])
+            return None
+        if shape and int(np.prod(shape)) > 0 and len(shape) == 1:
+            nd = resize(t[1], data[0], r, smaller)
+            if nd is not None:
+                return ("ARR", shape, [nd] + data[1:])
+        return None
+    return None
+
+
+def expected_of(t, d):
+    """expected deep value of generated data (capacity strings read back empty)"""
+    k = t[0]
+    if k == "string":
+        return "" if isinstance(d, tuple) else d
+    if k == "struct":
+        return {n: expected_of(ft, d[n]) for n, ft in t[2]}
+    if k == "array":
+        _, shape, data = d
+
+        def walk(x, dims):
+            if not dims:
+                return expected_of(t[1], x)
+            return [walk(y, dims[1:]) for y in x]
+
+        return ("ARR", shape, walk(data, shape))
+    if k == "ref":
+        return None if d is None else expected_of(t[1], d)
+    if k == "uref":
+        return None if d is None else ("U", d[1], expected_of(t[2][d[1]], d[2]))
+    if k == "scalar" and T.scalars()[t[1]]._dtype.kind == "f":
+        return float(T.scalars()[t[1]]._dtype.type(d))
+    return d
+
+
 def crosses_ref(t, path):
     cur = t
     for s in path:
@@ -464,11 +632,58 @@ def misuse_cases(R, r):
                 R.fail("C11:misuse-side-effect:" + name, f"{name}: the value of an existing object changed", ctx)
 
 
+def corpus_cases(R, r):
+    """fixed multi-step cases (past findings / seeded changes), run first"""
+    xo = common.import_xobjects()
+    t = ("struct", "OuterI", [("a", ("struct", "InnerI", [("n", ("scalar", 2)), ("data", ("array", ("scalar", 0), [None], [0]))])), ("b", ("scalar", 2))])
+    cache = {}
+    cls = T.build(t, cache)
+    icls = T.build(t[2][0][1], cache)
+    for how, idata in (("same", [4.0, 5.0, 6.0]), ("smaller", [9.0]), ("larger", [1.0, 2.0, 3.0, 4.0])):
+        hc = H(r)
+        ctx = {"component": "heap", "corpus": "assign-instance-" + how, "type": T.sexp(t)}
+        d = {"a": {"n": 1, "data": ("ARR", [3], [1.0, 2.0, 3.0])}, "b": 7}
+        vs, arg = L.vsexp(t, d, cache, "py")
+        obj = cls(arg, _buffer=hc.bufs[0])
+        hc.note_allocs()
+        hc.ops += [f"type T {T.sexp(t)}", f"new T h0 0 {vs}"]
+        hc.exp += ["ok", f"off {obj._offset} mems {mems(hc.bufs)}"]
+        di = {"n": 5, "data": ("ARR", [len(idata)], idata)}
+        ivs, iarg = L.vsexp(t[2][0][1], di, cache, "py")
+        inst = icls(iarg, _buffer=hc.bufs[1])
+        hc.note_allocs()
+        hc.ops += [f"type TI {T.sexp(t[2][0][1])}", f"new TI inst 1 {ivs}"]
+        hc.exp += ["ok", f"off {inst._offset} mems {mems(hc.bufs)}"]
+        size0 = int(obj.a._get_size())
+        before = [L.image(b) for b in hc.bufs]
+        try:
+            obj.a = inst
+            res = "ok"
+        except Exception as ex:
+            res = "err " + L.exc_name(ex)
+        after = [L.image(b) for b in hc.bufs]
+        hc.ops.append("upd h0 f:a (obj inst)")
+        hc.exp.append(f"{res} mems {mems(hc.bufs)}")
+        if int(obj.a._get_size()) != size0:
+            R.fail("C11:size-changed", f"assigning an InnerI with {len(idata)} items to a slot created with 3 items changed the slot's stored size from {size0} to {int(obj.a._get_size())} ({res})", ctx)
+        if res == "ok" and how != "same":
+            R.fail("C11:misfit-accepted", f"an InnerI with {len(idata)} items was assigned to a slot created with 3 items without error; data is now {[float(x) for x in obj.a.data.to_nparray()]}", ctx)
+        if res != "ok" and after != before:
+            R.fail("C11:error-with-side-effect:struct-update", f"{T.sexp(t)}: assigning an existing InnerI ({how}) to f:a raised {res} but changed the buffer", ctx)
+        if int(obj.b) != 7:
+            R.fail("C03:set-writes-outside", f"assigning an InnerI ({how}) to f:a changed the sibling field b to {int(obj.b)}", ctx)
+        R.tags["corpus.assign-instance-" + how] += 1
+        R.lines += hc.ops
+        R.expect += hc.exp
+        R.ctxs += [ctx] * len(hc.ops)
+
+
 def run_all(tier, seed, n=None):
     r = random.Random(seed * 999331 + 29)
     R = L.Run()
     n = n or {"quick": 120, "thorough": 3000}[tier]
     misuse_cases(R, r)
+    corpus_cases(R, r)
     for _ in range(n):
         run_case(R, r)
     cases, cur = [], []
